@@ -389,6 +389,60 @@ def specRaw (b raw : List Nat) : Bool := raw == b
 
 end Shape
 
+/-! ## the `output` view over a history of reads (xonsh/procs/pipelines.py `CommandPipeline.output`, `.out`, `str()`, `==`) -/
+namespace Hist
+open Shape
+
+/-- `lines` grows while `tee_stdout` runs, `ended` flips once, `_output` caches the formatted text -/
+structure St where
+  ended : Bool
+  cache : Option (List Nat)
+  lines : List (List Nat)
+  deriving Repr
+
+def init : St := { ended := false, cache := none, lines := [] }
+
+/-- `deliver l` = tee_stdout appends one shaped line (nothing arrives after the end); `finish` = `_end` sets `ended`;
+`read` = the `output` property (which `.out`, `str()` and `==` return after `end()`) -/
+inductive Op where
+  | deliver (l : List Nat) | finish | read
+  deriving Repr
+
+/-- `stale = false` is the code as it is: the cache is filled only once the pipeline has ended.  `stale = true` caches whatever
+an early read computed and keeps it after the end (what a careless "simplification" of the property does). -/
+def step (stale : Bool) (s : St) : Op → St × Option (List Nat)
+  | .deliver l => if s.ended then (s, none) else ({ s with lines := s.lines ++ [l] }, none)
+  | .finish => ({ s with ended := true }, none)
+  | .read =>
+    if stale then
+      if s.cache.isNone || !s.ended then
+        let v := fmtLines s.lines
+        ({ s with cache := some v }, some v)
+      else (s, s.cache)
+    else if s.ended then
+      match s.cache with
+      | some v => (s, some v)
+      | none => let v := fmtLines s.lines; ({ s with cache := some v }, some v)
+    else (s, some (fmtLines s.lines))
+
+/-- the values returned by the reads of a history, each paired with `ended` at that moment -/
+def run (stale : Bool) (s : St) : List Op → List (Bool × List Nat)
+  | [] => []
+  | op :: ops =>
+    match step stale s op with
+    | (s', some v) => (s.ended, v) :: run stale s' ops
+    | (s', none) => run stale s' ops
+
+/-- the lines a history delivers before its first `finish` (later `deliver`s are ignored by the machine, as by the code) -/
+def delivered : Bool → List Op → List (List Nat)
+  | _, [] => []
+  | true, _ :: ops => delivered true ops
+  | false, .deliver l :: ops => l :: delivered false ops
+  | false, .finish :: ops => delivered true ops
+  | false, .read :: ops => delivered false ops
+
+end Hist
+
 /-! ## return code -/
 namespace Rtn
 
